@@ -32,6 +32,9 @@ type Case struct {
 	HW    int           `json:"pending_high_water"`
 	Ext   string        `json:"ext,omitempty"`
 	Tail  int           `json:"tail,omitempty"` // trailing bytes after the last block (stripped for the exact-length JPEG form)
+	// BufferedOnly: the layout exceeds what the reader of a plain io.Reader accepts (directories of 86..128 entries, values over
+	// 1 KiB): only the entry points that read through a bufio.Reader are run
+	BufferedOnly bool `json:"buffered_only,omitempty"`
 }
 
 // jpegExact carries the block, without its trailing bytes, in the APP1 segment of a
@@ -74,6 +77,9 @@ func eval(c Case) *pbt.Fail {
 			b    []byte
 		}{{"II", c.II}, {"MM", c.MM}} {
 			in := enc.b
+			if entry == "ExifParse" && c.BufferedOnly {
+				continue
+			}
 			if entry == "ExifParse" && c.Tail > 0 && len(enc.b)-c.Tail >= 64 && len(enc.b)%2 == 0 {
 				in = enc.b[:len(enc.b)-c.Tail] // the bare block without trailing bytes (still >= 28 bytes after the signature)
 			}
@@ -115,7 +121,7 @@ func genWith(o gen.Options, ext string) func(rt *rapid.T) Case {
 		if f.Enc.PendingHW > 84 {
 			panic(fmt.Sprintf("generator bug: pending high-water %d > 84", f.Enc.PendingHW))
 		}
-		c := Case{Rec: f.Rec, Ctx: exifcheck.CtxOf(f), II: f.Enc.II, MM: f.Enc.MM, Order: f.Enc.BlockOrder, HW: f.Enc.PendingHW, Ext: ext, Tail: f.Enc.Tail}
+		c := Case{Rec: f.Rec, Ctx: exifcheck.CtxOf(f), II: f.Enc.II, MM: f.Enc.MM, Order: f.Enc.BlockOrder, HW: f.Enc.PendingHW, Ext: ext, Tail: f.Enc.Tail, BufferedOnly: !o.Unbuffered}
 		cls := append([]string{}, f.Classes...)
 		if ext != "" {
 			cls = append(cls, "ext:"+ext)
@@ -131,6 +137,8 @@ func genWith(o gen.Options, ext string) func(rt *rapid.T) Case {
 var chkMain = pbt.Check[Case]{Name: "record-roundtrip", Eval: eval, Gen: genWith(gen.Options{Unbuffered: true}, "")}
 var chkBig = pbt.Check[Case]{Name: "record-roundtrip-pending-limit", Eval: eval, Gen: genWith(gen.Options{Unbuffered: true, BigPending: true}, "")}
 var chkHeavy = pbt.Check[Case]{Name: "record-roundtrip-consumed-plus-pending", Eval: eval, Gen: genWith(gen.Options{Unbuffered: true, HeavyWriter: true}, "")}
+var chkMany = pbt.Check[Case]{Name: "record-roundtrip-entry-limit", Eval: eval, Gen: genWith(gen.Options{Unbuffered: true, ManyEntries: true}, "")}
+var chkManyBuf = pbt.Check[Case]{Name: "record-roundtrip-entry-limit-buffered", Eval: eval, Gen: genWith(gen.Options{ManyEntries: true}, "")}
 var chkSub = pbt.Check[Case]{Name: "record-roundtrip-ext-subsec", Eval: eval, Gen: genWith(gen.Options{Unbuffered: true, ExtSubSecDigits: true}, "subsec-digits")}
 
 func init() {
@@ -138,6 +146,8 @@ func init() {
 	pbt.Register(chkBig)
 	pbt.Register(chkHeavy)
 	pbt.Register(chkSub)
+	pbt.Register(chkMany)
+	pbt.Register(chkManyBuf)
 }
 
 func TestProp(t *testing.T) {
@@ -150,6 +160,7 @@ func TestProp(t *testing.T) {
 	rec.Assume("at most one serial-number source unless both are equal; CameraOwnerName only when Artist is absent; sub-second and offset tags only next to their date tag")
 	rec.Assume("directories <= 85 entries and values <= 1024 bytes so that the same file is valid for the unbuffered exif2.Parse path; <= 84 out-of-line references in total")
 	rec.Assume("CameraModel enum asserted only when the Make value precedes the Model value in the file (writers emit values in tag order)")
+	rec.Rule("entry limit: one directory filled with embedded-value foreign tags to 128, 127, 126, 118 or 100 entries (entry points that read through a bufio.Reader) and to 85, 84, 83, 75 or 57 entries (every entry point incl. exif2.Parse on a plain reader, whose scratch buffer holds 85 entries)")
 	rec.Rule("exhaustive shift: records drawn from VERIF_SEED (plain, and writer-like with > 84 consumed + pending tags), re-encoded with IFD0 at every offset 8..N (N = 4500 quick, 12700 thorough): every directory, value and sub-directory of the block crosses every 1 KiB scratch and 4 KiB reader-buffer boundary at every phase")
 	pbt.RegressDir(t, rec)
 	{
@@ -183,6 +194,12 @@ func TestProp(t *testing.T) {
 		return
 	}
 	if !pbt.Run(t, rec, chkHeavy, rec.Env.Pick(300, 6000), 4) {
+		return
+	}
+	if !pbt.Run(t, rec, chkMany, rec.Env.Pick(300, 6000), 5) {
+		return
+	}
+	if !pbt.Run(t, rec, chkManyBuf, rec.Env.Pick(300, 6000), 6) {
 		return
 	}
 	pbt.Run(t, rec, chkSub, rec.Env.Pick(300, 3000), 3)
